@@ -1,9 +1,9 @@
 (* C07 — summing, casting and shares conserve totals and act by label.
    Only statements; each closed by [exact] of a lemma proved in Proofs/. *)
-From Coq Require Import List Arith Ring_theory Reals RealField.
+From Coq Require Import List Arith Bool Ring_theory Field_theory Reals RealField.
 Import ListNotations.
 From Flodym Require Import Base.ND Base.Env Np.Einsum Model.Dims Model.Array
-  Proofs.ArrayLemmas Proofs.C07Proofs.
+  Proofs.ArrayLemmas Proofs.C07Proofs Proofs.SumProofs Proofs.CastProofs Proofs.SharesProofs Proofs.CumsumProofs.
 
 (* sum_to / sum_over (both reduce through sum_values_to): the entry of the result under the labels
    [e] is the sum of the source over all label assignments of the dimensions that were summed away *)
@@ -33,3 +33,143 @@ Theorem C07_grand_total_preserved_reals :
   sum 0%R Rplus (dat v) = sum 0%R Rplus (avals a).
 Proof. exact (sum_values_to_total R 0%R 1%R Rplus Rmult Rminus Ropp RTheory). Qed.
 Print Assumptions C07_grand_total_preserved_reals.
+
+(* ---- dimension arguments: letters, names and Dimension objects alike; unknown ones rejected ---- *)
+Theorem C07_arguments_resolved_alike :
+  forall (R : Type) (a : farr R) (xs : list dimarg) (ds : dimset),
+  NoDup (aletters R a) -> NoDup (names (adims a)) -> incl ds (adims a) -> Forall2 denotes xs ds ->
+  tuple_to_letters R a xs = Ok (letters ds).
+Proof. exact tuple_to_letters_alike. Qed.
+Print Assumptions C07_arguments_resolved_alike.
+
+Theorem C07_unknown_letter_rejected :
+  forall (R : Type) (a : farr R) (xs : list dimarg) (l : letter),
+  In (ALetter l) xs -> ~ In l (aletters R a) -> tuple_to_letters R a xs = Err.
+Proof. intros R a xs l Hin Hn. eapply tuple_to_letters_unknown; [exact Hin | apply get_dim_letter_unknown_letter; exact Hn]. Qed.
+Print Assumptions C07_unknown_letter_rejected.
+
+Theorem C07_unknown_name_rejected :
+  forall (R : Type) (a : farr R) (xs : list dimarg) (n : nat),
+  In (AName n) xs -> ~ In n (names (adims a)) -> tuple_to_letters R a xs = Err.
+Proof. intros R a xs n Hin Hn. eapply tuple_to_letters_unknown; [exact Hin | apply get_dim_letter_unknown_name; exact Hn]. Qed.
+Print Assumptions C07_unknown_name_rejected.
+
+(* ---- sum_to: requested order respected, marginal by label ------------------------------------- *)
+Theorem C07_sum_to_by_label_in_requested_order :
+  forall (R : Type) (rO rI : R) (radd rmul rsub : R -> R -> R) (ropp : R -> R),
+  ring_theory rO rI radd rmul rsub ropp eq ->
+  forall (a r : farr R) (xs : list dimarg) (rs : list letter) (e : env),
+  wf R a -> tuple_to_letters R a xs = Ok rs -> sum_to R rO rI radd rmul a xs = Ok r ->
+  in_range (lsizes R a) e rs ->
+  Forall2 (fun l d => find_letter (adims a) l = Some d) rs (adims r)
+  /\ aletters R r = rs
+  /\ den R rO r e = sum_env rO radd (sized (lsizes R a) (others R a rs)) (fun e' => den R rO a (e' ++ e)).
+Proof. exact sum_to_spec. Qed.
+Print Assumptions C07_sum_to_by_label_in_requested_order.
+
+(* ---- sum_over: the named dimensions summed away, the others kept in the array's order ---------- *)
+Theorem C07_sum_over_by_label :
+  forall (R : Type) (rO rI : R) (radd rmul rsub : R -> R -> R) (ropp : R -> R),
+  ring_theory rO rI radd rmul rsub ropp eq ->
+  forall (a r : farr R) (xs : list dimarg) (so : list letter) (e : env),
+  wf R a -> tuple_to_letters R a xs = Ok so -> sum_over R rO rI radd rmul a xs = Ok r ->
+  in_range (lsizes R a) e (aletters R r) ->
+  adims r = filter (fun d => negb (memb (dletter d) so)) (adims a)
+  /\ den R rO r e = sum_env rO radd (sized (lsizes R a) (filter (fun l => memb l so) (aletters R a)))
+                      (fun e' => den R rO a (e' ++ e)).
+Proof. exact sum_over_spec. Qed.
+Print Assumptions C07_sum_over_by_label.
+
+(* ---- cast_to: every entry replicated along the added dimensions, in the target's order --------- *)
+Theorem C07_cast_replicates_by_label :
+  forall (R : Type) (rO rI : R) (radd rmul rsub : R -> R -> R) (ropp : R -> R),
+  ring_theory rO rI radd rmul rsub ropp eq ->
+  forall (a : farr R) (target : dimset) (v : nd R) (e : env),
+  wf R a -> NoDup (letters target) ->
+  cast_values_to R rO rI radd rmul a target = Ok v ->
+  (forall d, In d target -> lookup e (dletter d) < dlen d) ->
+  (forall d, In d target -> memb (dletter d) (aletters R a) = true -> lookup (lsizes R a) (dletter d) = dlen d) ->
+  den_nd R rO (letters target) v e = den R rO a e /\ shp v = dshape target.
+Proof. exact cast_values_to_den. Qed.
+Print Assumptions C07_cast_replicates_by_label.
+
+Theorem C07_cast_refuses_missing_dimension :
+  forall (R : Type) (rO rI : R) (radd rmul : R -> R -> R) (a : farr R) (target : dimset) (l : letter),
+  In l (aletters R a) -> ~ In l (letters target) -> cast_values_to R rO rI radd rmul a target = Err.
+Proof. exact cast_refuses_missing. Qed.
+Print Assumptions C07_cast_refuses_missing_dimension.
+
+(* summing the cast back gives the original times the number of added label combinations *)
+Theorem C07_cast_then_sum_back :
+  forall (R : Type) (rO rI : R) (radd rmul rsub : R -> R -> R) (ropp : R -> R),
+  ring_theory rO rI radd rmul rsub ropp eq ->
+  forall (a b : farr R) (target : dimset) (v : nd R) (e : env),
+  wf R a -> NoDup (letters target) ->
+  (forall d, In d target -> memb (dletter d) (aletters R a) = true -> lookup (lsizes R a) (dletter d) = dlen d) ->
+  cast_to R rO rI radd rmul a target = Ok b ->
+  sum_values_to R rO rI radd rmul b (aletters R a) = Ok v ->
+  in_range (lsizes R a) e (aletters R a) ->
+  den_nd R rO (aletters R a) v e
+  = nmul R rO radd (size (map (lookup (combine (letters target) (dshape target))) (added R a target))) (den R rO a e).
+Proof. exact cast_sum_back. Qed.
+Print Assumptions C07_cast_then_sum_back.
+
+(* ---- get_shares_over --------------------------------------------------------------------------- *)
+Theorem C07_shares_divide_by_total :
+  forall (R : Type) (rO rI : R) (radd rmul rsub : R -> R -> R) (ropp : R -> R),
+  ring_theory rO rI radd rmul rsub ropp eq ->
+  forall (inv : R -> R) (a r : farr R) (ls : list letter) (e : env),
+  wf R a -> get_shares_over R rO rI radd rmul inv a ls = Ok r -> in_range (lsizes R a) e (aletters R a) ->
+  adims r = adims a /\ den R rO r e = rmul (den R rO a e) (inv (share_total R rO radd a ls e)).
+Proof. exact shares_spec. Qed.
+Print Assumptions C07_shares_divide_by_total.
+
+Theorem C07_shares_sum_to_one :
+  forall (F : Type) (fO fI : F) (fadd fmul fsub : F -> F -> F) (fopp : F -> F) (fdiv : F -> F -> F) (finv : F -> F),
+  field_theory fO fI fadd fmul fsub fopp fdiv finv eq ->
+  forall (a r : farr F) (ls : list letter) (e : env),
+  wf F a -> get_shares_over F fO fI fadd fmul finv a ls = Ok r -> in_range (lsizes F a) e (aletters F a) ->
+  share_total F fO fadd a ls e <> fO ->
+  share_total F fO fadd r ls e = fI.
+Proof. exact shares_sum_to_one. Qed.
+Print Assumptions C07_shares_sum_to_one.
+
+Theorem C07_shares_multiply_back :
+  forall (F : Type) (fO fI : F) (fadd fmul fsub : F -> F -> F) (fopp : F -> F) (fdiv : F -> F -> F) (finv : F -> F),
+  field_theory fO fI fadd fmul fsub fopp fdiv finv eq ->
+  forall (a r : farr F) (ls : list letter) (e : env),
+  wf F a -> get_shares_over F fO fI fadd fmul finv a ls = Ok r -> in_range (lsizes F a) e (aletters F a) ->
+  share_total F fO fadd a ls e <> fO ->
+  fmul (den F fO r e) (share_total F fO fadd a ls e) = den F fO a e.
+Proof. exact shares_mul_back. Qed.
+Print Assumptions C07_shares_multiply_back.
+
+Theorem C07_shares_refuse_unknown_dimension :
+  forall (R : Type) (rO rI : R) (radd rmul : R -> R -> R) (inv : R -> R) (a : farr R) (ls : list letter) (l : letter),
+  In l ls -> ~ In l (aletters R a) -> get_shares_over R rO rI radd rmul inv a ls = Err.
+Proof. exact shares_refuses_unknown. Qed.
+Print Assumptions C07_shares_refuse_unknown_dimension.
+
+(* the same over the reals *)
+Theorem C07_shares_sum_to_one_reals :
+  forall (a r : farr R) (ls : list letter) (e : env),
+  wf R a -> get_shares_over R 0%R 1%R Rplus Rmult Rinv a ls = Ok r -> in_range (lsizes R a) e (aletters R a) ->
+  share_total R 0%R Rplus a ls e <> 0%R ->
+  share_total R 0%R Rplus r ls e = 1%R.
+Proof. exact (shares_sum_to_one R 0%R 1%R Rplus Rmult Rminus Ropp Rdiv Rinv Rfield). Qed.
+Print Assumptions C07_shares_sum_to_one_reals.
+
+(* ---- cumsum ------------------------------------------------------------------------------------ *)
+Theorem C07_cumsum_accumulates_in_item_order :
+  forall (R : Type) (rO : R) (radd : R -> R -> R) (a r : farr R) (l : letter) (e : env),
+  wf R a -> cumsum R rO radd a l = Ok r -> in_range (lsizes R a) e (aletters R a) ->
+  adims r = adims a
+  /\ den R rO r e = sum rO radd (map (fun j => den R rO a ((l, j) :: e)) (seq 0 (S (lookup e l)))).
+Proof. exact cumsum_spec. Qed.
+Print Assumptions C07_cumsum_accumulates_in_item_order.
+
+Theorem C07_cumsum_unknown_letter_rejected :
+  forall (R : Type) (rO : R) (radd : R -> R -> R) (a : farr R) (l : letter),
+  ~ In l (aletters R a) -> cumsum R rO radd a l = Err.
+Proof. exact cumsum_unknown. Qed.
+Print Assumptions C07_cumsum_unknown_letter_rejected.
